@@ -74,6 +74,17 @@ Prunings(t) ==
                       ELSE { <<h>> \o r : h \in Prunings(t.ch[i]), r \in Kids(i + 1) }
        IN { OpenNode(t.n, t.id) } \cup { [t EXCEPT !.ch = cs] : cs \in Kids(1) }
 
+(* prunings with at most k opened nodes (for large trees, where Prunings(t) is too big) *)
+RECURSIVE NumOpen(_)
+NumOpen(t) == IF t.open THEN 1 ELSE LET RECURSIVE S(_) S(i) == IF i > Len(t.ch) THEN 0 ELSE NumOpen(t.ch[i]) + S(i + 1) IN S(1)
+RECURSIVE PruningsK(_, _)
+PruningsK(t, k) ==
+  IF ~t.nt THEN {t}
+  ELSE LET RECURSIVE Kids(_, _)
+           Kids(i, b) == IF i > Len(t.ch) THEN { <<>> }
+                         ELSE UNION { { <<h>> \o r : r \in Kids(i + 1, b - NumOpen(h)) } : h \in PruningsK(t.ch[i], b) }
+       IN (IF k >= 1 THEN { OpenNode(t.n, t.id) } ELSE {}) \cup { [t EXCEPT !.ch = cs] : cs \in Kids(1, k) }
+
 (* ---- languages by Kleene iteration ---------------------------------- *)
 (* cur : function nonterminal -> set of texts of length <= L *)
 RECURSIVE AltLang(_, _, _)
